@@ -23,9 +23,24 @@ EQ = z3.Function("EQ", I, I, B)
 DIST = z3.Function("Dist", I, I, I, I, I)
 
 
+TABLE_FN = {n_: z3.Function("TABLE." + n_, I, I) for n_ in ("IUPAC_TABLE", "ACGT_TABLE", "UPPER_TABLE")}
+
+
 def translate(ex, st, args, kwargs, node, spec):
+    """bytes of the string's length, each the table entry of the character (which table is applied is part of the contracts;
+    the table contents are checked exhaustively against the IUPAC semantics)"""
     q = as_str(args[0])
-    return CArr(fresh("translated", AII), q.n, None, "query_bytes")
+    arr = fresh("translated", AII)
+    tb = args[1] if len(args) > 1 else None
+    if isinstance(tb, PyConst) and tb.v in TABLE_FN:
+        from pyvc import heap
+        t = z3.Int("t!tr")
+        src = heap.named_array(ex.cx, q.arr)
+        ex.cx.axioms.append(z3.ForAll([t], arr[t] == TABLE_FN[tb.v](src[t]), patterns=[arr[t]]))
+        # two entries in which the tables differ (part of the exhaustive table check): N is the full class under IUPAC and
+        # nothing under ACGT
+        ex.cx.axioms += [TABLE_FN["IUPAC_TABLE"](z3.IntVal(78)) == 15, TABLE_FN["ACGT_TABLE"](z3.IntVal(78)) == 0]
+    return CArr(arr, q.n, None, "query_bytes")
 
 
 BUILTINS["translate"] = translate
@@ -154,6 +169,15 @@ def locate_contract(c, layer):
     c.requires(**PRE)
     c.ghost("__define__('CA', compare_ascii)", after="s2 = query_bytes")
     c.ghost("__define__('S2', s2)", after="s2 = query_bytes")
+    if layer == "L3":
+        # the read is encoded with the table of the configured wildcard mode: IUPAC classes when read wildcards are on, plain
+        # A/C/G/T bits when only adapter wildcards are on (an N in the read then matches nothing), upper-cased characters
+        # compared as they are otherwise
+        c.spec(lambda cx: cx.spec.update(table_code=lambda name, x: TABLE_FN[name.v](x)))
+        c.ghost("__assert__(forall(t, 0, len(query), code(s2, t) == (table_code('IUPAC_TABLE', code(query, t)) if self.wildcard_query else "
+                "(table_code('ACGT_TABLE', code(query, t)) if self.wildcard_ref else table_code('UPPER_TABLE', code(query, t))))) and "
+                "compare_ascii == (not self.wildcard_query and not self.wildcard_ref), 'read_encoded_with_the_table_of_the_wildcard_mode')",
+                after="s2 = query_bytes")
     c.ghost("jcol = min_n", before="best.ref_stop = m", occurrence=1)
     c.ghost("jcol = j", after="last_filled_i = last")
     c.ghost(ghost_init_block(), after="column[i].origin = 0")
@@ -702,7 +726,12 @@ def aligner_set_reference(c):
         buffers_sized_for_the_reference="self.m == len(reference) and len(self.column) == self.m + 1 and len(self.n_counts) == self.m + 1 and len(self._reference) == self.m",
         n_counts_are_prefix_counts_of_N="forall(t, 0, self.m + 1, code(self.n_counts, t) == NCNT(reference, t))",
         effective_length_discounts_N_only_with_adapter_wildcards="self.effective_length == (self.m - NCNT(reference, self.m) if self.wildcard_ref else self.m)",
+        adapter_encoded_with_the_table_of_the_wildcard_mode=
+        "forall(t, 0, self.m, code(self._reference, t) == (table_code('IUPAC_TABLE', code(reference, t)) if self.wildcard_ref else "
+        "(table_code('ACGT_TABLE', code(reference, t)) if self.wildcard_query else code(reference, t))))",
     )
+    c.spec(lambda cx: cx.spec.update(table_code=lambda name, x: TABLE_FN[name.v](x)))
+    c.mutant("self._reference = translate(reference, ACGT_TABLE)", "self._reference = translate(reference, IUPAC_TABLE)")
     c.mutant("self.n_counts[i] = n_count", "self.n_counts[i] = n_count + 1")
     c.mutant("self.effective_length = self.m - self.n_counts[self.m]", "self.effective_length = self.m")
 
